@@ -492,6 +492,31 @@ def gen_c11(rng, thorough=False):
                 else:
                     steps += [peer(late[head:]), st2, reply([3, 2, 0x12, 0x34], unit=1)]
                 scs.append(scenario(len(scs), steps, tag=f"c11-late-reply-straddles-deadline@{head}-{tail_when}", txid0=txid0))
+    # the id sequence belongs to the channel, not to a unit: requests to several unit ids advance one sequence, and a
+    # late / unsolicited frame from ANOTHER unit is matched (and discarded) by its transaction id like any other
+    for rep in range(4 if thorough else 2):
+        steps = [cmd("enable")]
+        prev = None
+        for r in range(1, 14):
+            u = rng.choice([1, 2, 3, 7, 247])
+            st = rand_request(rng, r, timeout=20, unit=u)
+            steps.append(st)
+            mode = rng.choice(["ok", "timeout", "late-from-other-unit", "unsolicited-other-unit", "stale-other-unit"]) if prev else "ok"
+            if mode == "timeout":
+                steps.append(tick(20))
+            elif mode == "late-from-other-unit":
+                steps.append(reply(good_reply(rng, prev), unit=prev["unit"], txrel=-1))
+                steps.append(reply(good_reply(rng, st), unit=u))
+            elif mode == "unsolicited-other-unit":
+                steps.append(reply(good_reply(rng, st), unit=(u % 200) + 9, txrel=rng.choice([1, 5, 300])))
+                steps.append(reply(good_reply(rng, st), unit=u))
+            elif mode == "stale-other-unit":
+                steps.append(reply(good_reply(rng, st), unit=(u % 200) + 9, txrel=-rng.choice([1, 2, 40000])))
+                steps.append(reply(good_reply(rng, st), unit=u))
+            else:
+                steps.append(reply(good_reply(rng, st), unit=u))
+            prev = st
+        scs.append(scenario(len(scs), steps, tag="c11-several-units-one-sequence", txid0=rng.choice([0, 65530])))
     # the id sequence belongs to the channel, not to a connection: it goes on across disable / enable, a peer that closes,
     # a framing error and a new connection
     for how in ("disable-enable", "eof", "garbage", "mixed"):
@@ -1032,6 +1057,10 @@ def gen_c13(rng, thorough=False):
     return scs
 
 
+def cur_lat(rmin):
+    return max(1, rmin // 2)
+
+
 def gen_c14(rng, thorough=False):
     scs = []
     grid = [(1, 1), (1, 8), (10, 15), (100, 100), (100, 250), (100, 800), (1000, 60000), (3, 1000)]
@@ -1047,6 +1076,17 @@ def gen_c14(rng, thorough=False):
             if d > 2:
                 return [tick(1)] + noise + [tick(d - 2), tick(1)]
             return noise + ([tick(d - 1)] if d > 1 else []) + [tick(1)]
+        # a connect that takes time before it fails (timeout, stalled handshake): the announced delay is waited from the
+        # failure on, whatever the attempt took
+        for lat in (1, cur_lat(rmin), 3 * rmax):
+            steps = [cmd("enable")]
+            cur = rmin
+            for _ in range(4):
+                steps += [tick(lat), conn("err")]
+                steps += wait(cur)
+                cur = min(2 * cur, rmax)
+            steps += [tick(lat), conn("ok")]
+            scs.append(scenario(len(scs), steps, mode="task", retry=(rmin, rmax), max_timeouts=1, tag=f"c14-{rmin}-{rmax}-slow-connect-{lat}"))
         for pattern in ("fail*8", "fail3-ok-fail3", "fail2-ok-eof-fail2", "ok-eof-ok-eof", "fail4-disable-enable-fail2",
                         "fail2-ok-garbage-fail3", "fail3-ok-maxtimeouts-fail2",
                         # the sequence restarts at min after a successful connection however that connection ends
